@@ -37,7 +37,11 @@ type Step struct {
 	B       int       `json:"b"`
 	Runs    []RunSpec `json:"runs"`
 	Loaders bool      `json:"loaders"`
+	M       string    `json:"m"` // the remote a Push / Fetch / MergeAll talks to ("" = origin)
 }
+
+// Remotes every replica has configured; the trace specification's constant Remote is the same set.
+var Remotes = []string{"origin", "backup"}
 
 // Commit is a commit in the specification's shape.
 type Commit struct {
@@ -70,8 +74,9 @@ type Event struct {
 	Loaders  bool      `json:"loaders"`
 	New      []*Commit `json:"new"`
 	Ref      []int     `json:"ref"`
-	Trk      []int     `json:"trk"`
-	Hub      []int     `json:"hub"`
+	M        string    `json:"m"`
+	Trk      map[string][]int `json:"trk"` // per remote
+	Hub      map[string][]int `json:"hub"` // per remote
 	Clk      Clk       `json:"clk"`
 	Ok       bool      `json:"ok"`
 	Status   string    `json:"status"`
@@ -79,6 +84,7 @@ type Event struct {
 	Snap     string    `json:"snap"`
 	Err      string    `json:"err"`
 	Final    bool      `json:"final"`
+	Empty    bool      `json:"empty"`
 }
 
 const NBug = 3 // width of the ref vectors in the trace (the trace specification uses the same constant)
@@ -96,7 +102,7 @@ type World struct {
 	dir      string
 	reps     map[string]*replica
 	order    []string
-	hub      *repository.GoGitRepo
+	hubs     map[string]*repository.GoGitRepo // by remote name
 	authors  map[string]*identity.Identity // by model name, as created on the first replica
 	authorOf map[string]string             // identity id -> model name
 
@@ -118,11 +124,16 @@ func New(sess int, names []string, authors []string) *World {
 	w := &World{sess: sess, reps: map[string]*replica{}, authors: map[string]*identity.Identity{}, authorOf: map[string]string{},
 		commitNo: map[repository.Hash]int{}, opNo: map[string]int{}, bugNo: map[entity.Id]int{}, unix: 1_600_000_000}
 	w.dir = hx.Scratch("world")
-	w.hub = hx.InitBare(filepath.Join(w.dir, "hub"))
+	w.hubs = map[string]*repository.GoGitRepo{}
+	for _, m := range Remotes {
+		w.hubs[m] = hx.InitBare(filepath.Join(w.dir, "hub-"+m))
+	}
 	for _, n := range names {
 		d := filepath.Join(w.dir, n)
 		r := hx.InitRepo(d)
-		hx.Must(r.AddRemote("origin", filepath.Join(w.dir, "hub")))
+		for _, m := range Remotes {
+			hx.Must(r.AddRemote(m, filepath.Join(w.dir, "hub-"+m)))
+		}
 		w.reps[n] = &replica{name: n, dir: d, repo: r}
 		w.order = append(w.order, n)
 	}
@@ -146,7 +157,9 @@ func (w *World) Close() {
 	for _, r := range w.reps {
 		_ = r.repo.Close()
 	}
-	_ = w.hub.Close()
+	for _, h := range w.hubs {
+		_ = h.Close()
+	}
 	_ = os.RemoveAll(w.dir)
 }
 
@@ -311,8 +324,11 @@ func (w *World) clocks(r *replica) Clk {
 func (w *World) project(ev *Event, r *replica) {
 	var newOnes []*Commit
 	ev.Ref = w.refVector(r.repo, "refs/bugs/", &newOnes)
-	ev.Trk = w.refVector(r.repo, "refs/remotes/origin/bugs/", &newOnes)
-	ev.Hub = w.refVector(w.hub, "refs/bugs/", &newOnes)
+	ev.Trk, ev.Hub = map[string][]int{}, map[string][]int{}
+	for _, m := range Remotes {
+		ev.Trk[m] = w.refVector(r.repo, "refs/remotes/"+m+"/bugs/", &newOnes)
+		ev.Hub[m] = w.refVector(w.hubs[m], "refs/bugs/", &newOnes)
+	}
 	ev.Clk = w.clocks(r)
 	ev.New = newOnes
 	if ev.New == nil {
@@ -323,6 +339,9 @@ func (w *World) project(ev *Event, r *replica) {
 func (w *World) emit(ev *Event, r *replica) *Event {
 	ev.Sess = w.sess
 	ev.R = r.name
+	if ev.M == "" {
+		ev.M = "origin"
+	}
 	if ev.Runs == nil {
 		ev.Runs = []RunSpec{}
 	}
@@ -419,6 +438,9 @@ func (w *World) rep(name string) *replica {
 // Do executes one schedule step. A step the code refuses where the model enables it is recorded as an event with Err set.
 func (w *World) Do(s Step) {
 	r := w.rep(s.R)
+	if s.M == "" {
+		s.M = "origin"
+	}
 	switch s.Act {
 	case "NewBug":
 		first := s.Runs[0]
@@ -454,22 +476,24 @@ func (w *World) Do(s Step) {
 	case "Read":
 		w.read(r, s.B, false)
 	case "Push":
-		ev := &Event{Ev: "Push"}
-		_, err := bug.Push(r.repo, "origin")
+		ev := &Event{Ev: "Push", M: s.M}
+		_, err := bug.Push(r.repo, s.M)
 		ev.Ok = err == nil
 		if err != nil {
 			ev.Err = err.Error()
 		}
 		w.emit(ev, r)
 	case "Fetch":
-		ev := &Event{Ev: "Fetch"}
-		_, err := bug.Fetch(r.repo, "origin")
+		ev := &Event{Ev: "Fetch", M: s.M}
+		all, lerr := w.hubs[s.M].ListRefs("refs/")
+		ev.Empty = lerr == nil && len(all) == 0 // the remote holds no ref at all: go-git refuses to fetch from it
+		_, err := bug.Fetch(r.repo, s.M)
 		if err != nil {
 			ev.Err = err.Error()
 		}
 		w.emit(ev, r)
 	case "MergeAll":
-		w.mergeAll(r)
+		w.mergeAll(r, s.M)
 	case "Reopen":
 		w.reopen(r, s.Loaders)
 	case "DeleteClocks":
@@ -533,7 +557,7 @@ func statusName(s entity.MergeStatus) string {
 	return "?"
 }
 
-func (w *World) mergeAll(r *replica) {
+func (w *World) mergeAll(r *replica, remote string) {
 	mergeAuthor := w.author(r, "u1")
 	resolvers := entity.Resolvers{&identity.Identity{}: identity.NewSimpleResolver(r.repo)}
 	type one struct {
@@ -543,8 +567,8 @@ func (w *World) mergeAll(r *replica) {
 		err      string
 	}
 	var results []one
-	w.emit(&Event{Ev: "MergeAllBegin"}, r)
-	for res := range bug.MergeAll(r.repo, resolvers, "origin", mergeAuthor) {
+	w.emit(&Event{Ev: "MergeAllBegin", M: remote}, r)
+	for res := range bug.MergeAll(r.repo, resolvers, remote, mergeAuthor) {
 		o := one{id: res.Id, status: statusName(res.Status)}
 		if res.Err != nil {
 			o.err = res.Err.Error()
@@ -569,7 +593,7 @@ func (w *World) mergeAll(r *replica) {
 	}
 	for i, o := range results {
 		_, n := w.bugOfRef("refs/bugs/" + o.id.String())
-		ev := &Event{Ev: "Merge", B: n, Status: o.status, Returned: o.returned, Err: o.err}
+		ev := &Event{Ev: "Merge", M: remote, B: n, Status: o.status, Returned: o.returned, Err: o.err}
 		ev.Ref, ev.Trk, ev.Hub = full.Ref, full.Trk, full.Hub
 		ev.New = newByBug[n]
 		if ev.New == nil {
@@ -583,7 +607,7 @@ func (w *World) mergeAll(r *replica) {
 		}
 		w.emit(ev, r)
 	}
-	end := &Event{Ev: "MergeAllEnd"}
+	end := &Event{Ev: "MergeAllEnd", M: remote}
 	end.Ref, end.Trk, end.Hub, end.Clk, end.New = full.Ref, full.Trk, full.Hub, full.Clk, []*Commit{}
 	w.emit(end, r)
 }
@@ -611,9 +635,11 @@ func (w *World) Quiesce() {
 	for round := 0; round < 8; round++ {
 		before := w.fingerprint()
 		for _, n := range w.order {
-			w.Do(Step{Act: "Fetch", R: n})
-			w.Do(Step{Act: "MergeAll", R: n})
-			w.Do(Step{Act: "Push", R: n})
+			for _, m := range w.used() {
+				w.Do(Step{Act: "Fetch", R: n, M: m})
+				w.Do(Step{Act: "MergeAll", R: n, M: m})
+				w.Do(Step{Act: "Push", R: n, M: m})
+			}
 		}
 		if w.fingerprint() == before {
 			break
@@ -629,6 +655,20 @@ func (w *World) Quiesce() {
 	}
 }
 
+// used lists the remotes the session has talked to so far (origin always).
+func (w *World) used() []string {
+	out := []string{"origin"}
+	for _, m := range Remotes[1:] {
+		for _, ev := range w.events {
+			if ev.M == m {
+				out = append(out, m)
+				break
+			}
+		}
+	}
+	return out
+}
+
 func (w *World) fingerprint() string {
 	var sb strings.Builder
 	dump := func(repo repository.RepoData, prefix string) {
@@ -641,9 +681,13 @@ func (w *World) fingerprint() string {
 	}
 	for _, n := range w.order {
 		dump(w.reps[n].repo, "refs/bugs/")
-		dump(w.reps[n].repo, "refs/remotes/origin/bugs/")
+		for _, m := range Remotes {
+			dump(w.reps[n].repo, "refs/remotes/"+m+"/bugs/")
+		}
 	}
-	dump(w.hub, "refs/bugs/")
+	for _, m := range Remotes {
+		dump(w.hubs[m], "refs/bugs/")
+	}
 	return sb.String()
 }
 
